@@ -171,9 +171,14 @@ def check_case(ctx, case):
                     if rc:
                         ctx.fail("slices-to-precomputed returned %r" % rc)
                 else:
-                    s2p.convert_slices_in_directory(
-                        [Path(p) for p in dirs], dest, code,
-                        options={"flat": flat, "gzip": gz})
+                    if not flat and gz:
+                        # the documented defaults: no options argument
+                        s2p.convert_slices_in_directory(
+                            [Path(p) for p in dirs], dest, code)
+                    else:
+                        s2p.convert_slices_in_directory(
+                            [Path(p) for p in dirs], dest, code,
+                            options={"flat": flat, "gzip": gz})
         except SystemExit as exc:
             ctx.fail("command exited with %r" % (exc.code,))
         except Exception as exc:
